@@ -113,7 +113,11 @@ def check_tpm(name, counts_path, tpm_path, norm, ctx, case):
                     if abs(r - r0) > 1e-6 * max(r0, 1.0) + 1e-4:
                         ctx.violation("C02:tpm-ratios-not-preserved", {"table": name, "feature": f, "ratio": r,
                                                                       "first_ratio": r0}, case)
-            if s > 1e6 + 1e-3 * max(1, len(tf)):
+            # usable_reads divides the *printed* counts (2 decimals, so up to 0.005 off per row) by the number of
+            # usable reads: the sum may exceed 1e6 by that rounding only
+            slack = 0.005 * len(tf)
+            bound = 1e6 * total / max(total - slack, 1e-9) if total > slack else float("inf")
+            if s > bound + 1e-3 * max(1, len(tf)):
                 ctx.violation("C02:tpm-sum-exceeds-1e6", {"table": name, "sum": s}, case)
 
 
